@@ -234,6 +234,24 @@ func guardedByLevel(lvl *ssa.Parameter, block *ssa.BasicBlock) bool {
 		if !ok {
 			continue
 		}
+		// the bound tested by a helper that answers with an error: if err := checkDepth(level, max); err != nil { return err }
+		if (bo.Op == token.NEQ || bo.Op == token.EQL) && isErrorType(bo.X.Type()) {
+			if k, isC := bo.Y.(*ssa.Const); isC && k.IsNil() {
+				if call, isCall := bo.X.(*ssa.Call); isCall {
+					if g := core.Callee(&call.Call); g != nil && len(g.Blocks) > 0 {
+						for ai, a := range call.Call.Args {
+							if a == ssa.Value(lvl) && errorsWhenLevelReachesBound(g, ai) {
+								onTrue := idom.Succs[0] == d || idom.Succs[0].Dominates(d)
+								onFalse := idom.Succs[1] == d || idom.Succs[1].Dominates(d)
+								if onTrue != onFalse && ((bo.Op == token.NEQ && onFalse) || (bo.Op == token.EQL && onTrue)) {
+									return true
+								}
+							}
+						}
+					}
+				}
+			}
+		}
 		op := bo.Op
 		var other ssa.Value
 		switch {
@@ -270,6 +288,56 @@ func guardedByLevel(lvl *ssa.Parameter, block *ssa.BasicBlock) bool {
 			if onTrue {
 				return true
 			}
+		}
+	}
+	return false
+}
+
+// errorsWhenLevelReachesBound: g compares its parameter idx with an upper bound (param >= x or param > x) and
+// returns a non-nil error exactly on that side, nil on the other.
+func errorsWhenLevelReachesBound(g *ssa.Function, idx int) bool {
+	if idx >= len(g.Params) || g.Signature.Results().Len() != 1 || !isErrorType(g.Signature.Results().At(0).Type()) {
+		return false
+	}
+	prm := g.Params[idx]
+	for _, b := range g.Blocks {
+		ifi, ok := b.Instrs[len(b.Instrs)-1].(*ssa.If)
+		if !ok {
+			continue
+		}
+		bo, ok := ifi.Cond.(*ssa.BinOp)
+		if !ok {
+			continue
+		}
+		reached := -1 // successor index on which param has reached the bound
+		switch {
+		case bo.X == ssa.Value(prm) && (bo.Op == token.GEQ || bo.Op == token.GTR):
+			reached = 0
+		case bo.X == ssa.Value(prm) && (bo.Op == token.LSS || bo.Op == token.LEQ):
+			reached = 1
+		case bo.Y == ssa.Value(prm) && (bo.Op == token.LEQ || bo.Op == token.LSS):
+			reached = 0
+		case bo.Y == ssa.Value(prm) && (bo.Op == token.GEQ || bo.Op == token.GTR):
+			reached = 1
+		}
+		if reached < 0 {
+			continue
+		}
+		retOf := func(blk *ssa.BasicBlock) ssa.Value {
+			if r, ok := soleReturn(blk); ok {
+				return r.Results[0]
+			}
+			return nil
+		}
+		hit, miss := retOf(b.Succs[reached]), retOf(b.Succs[1-reached])
+		if hit == nil || miss == nil {
+			continue
+		}
+		if k, isC := hit.(*ssa.Const); isC && k.IsNil() {
+			continue
+		}
+		if k, isC := miss.(*ssa.Const); isC && k.IsNil() {
+			return true
 		}
 	}
 	return false
@@ -466,12 +534,18 @@ func freshNode(v ssa.Value) bool {
 
 // ruleAborts is C08-R3: no deliberate aborts outside main; template.Must only on constant, parseable templates.
 func ruleAborts(c *core.Ctx, rule string) {
+	constStringsProg = c.P
 	for _, fn := range c.P.Funcs {
 		fname := core.FuncName(fn)
 		for _, b := range fn.Blocks {
 			for _, in := range b.Instrs {
 				switch in := in.(type) {
 				case *ssa.Panic:
+					if n, ok := panicOnConstTemplate(c.P, in); ok {
+						c.Universe(rule+" deliberate aborts", fname+": panic on a template error ("+c.P.Pos(in.Pos())+")")
+						c.Discharge(rule, fname, "panic", c.P.Pos(in.Pos()), fmt.Sprintf("the panic is for the error of a constructor that fails only when its template text does not parse, and the %d text(s) it is given here are constants that parse: template.Must written out by hand", n))
+						continue
+					}
 					c.Violate(rule, fname, "panic", c.P.Pos(in.Pos()), "explicit panic in repository code reachable from a command", nil)
 				case ssa.CallInstruction:
 					cal := core.Callee(in.Common())
@@ -573,6 +647,9 @@ func templateTexts(v ssa.Value) ([]string, bool) {
 }
 
 // constStrings: the set of compile-time strings v may be (constants, φ of them, or results of a function that returns only constants).
+// constStringsProg: the program whose call sites constStrings may consult for parameters of named functions.
+var constStringsProg *core.Program
+
 func constStrings(v ssa.Value, depth int) ([]string, bool) {
 	if depth > 4 {
 		return nil, false
@@ -594,6 +671,32 @@ func constStrings(v ssa.Value, depth int) ([]string, bool) {
 		return out, true
 	case *ssa.Parameter:
 		fn := x.Parent()
+		if fn != nil && fn.Parent() == nil && constStringsProg != nil {
+			// a named function: every call of it in the tree must hand over a constant
+			idx := -1
+			for i, prm := range fn.Params {
+				if prm == x {
+					idx = i
+				}
+			}
+			var out []string
+			for _, g := range constStringsProg.Funcs {
+				for _, b := range g.Blocks {
+					for _, in := range b.Instrs {
+						ci, ok := in.(ssa.CallInstruction)
+						if !ok || core.Callee(ci.Common()) != fn || idx < 0 || idx >= len(ci.Common().Args) {
+							continue
+						}
+						s, ok := constStrings(ci.Common().Args[idx], depth+1)
+						if !ok {
+							return nil, false
+						}
+						out = append(out, s...)
+					}
+				}
+			}
+			return out, len(out) > 0
+		}
 		if fn == nil || fn.Parent() == nil {
 			return nil, false
 		}
@@ -751,7 +854,7 @@ func ruleStringIndex(c *core.Ctx, rule string) {
 				if nonEmptyKnown(x, s, xv) {
 					okAt[ix] = true
 				} else {
-					badAt[ix] = x.Valuation(s)
+					badAt[ix] = nonEmptyText(x.Valuation(s))
 				}
 			}
 			x.Run(x.NewState(root, nil, nil))
@@ -861,11 +964,11 @@ func nonEmptyKnown(x *absint.Exec, s *absint.State, v absint.Value) bool {
 func init() {
 	register(&Property{
 		ID:    "C08",
-		Rules: []string{"C08-R1", "C08-R2", "C08-R3", "C08-R4", "C08-R5", "C08-R6", "C08-R7", "C08-R8", "C08-R9", "C08-R10"},
+		Rules: []string{"C08-R1", "C08-R2", "C08-R3", "C08-R4", "C08-R5", "C08-R6", "C08-R7", "C08-R8", "C08-R9", "C08-R10", "C08-R11", "C08-R12", "C08-R13"},
 		Explain: "Decides the crash and hang mechanisms visible in the shape of this code (not general panic freedom): C08-R1 the (record, err) contract of ParseCallback on both sides — the parser passes (non-nil, nil) or (nil, non-nil) and no callback dereferences the record when an error is given; " +
 			"C08-R2 every recursive function has a ranking argument (depth counter bounded from above on the path to the call, or descent into a tree whose nodes are only linked to freshly allocated nodes); " +
 			"C08-R3 no panic/log.Fatal/os.Exit outside main.main, template.Must and regexp.MustCompile only on constants that parse; C08-R8 on the path where os.Open fails nothing but Close is called on the nil file; C08-R7 where acc[k][i] indexes a plain lookup in an accumulator the function filled itself, every key added is known to equal k; C08-R6 WithFileReaders stores a reader for every requested name before calling back; C08-R4 the accumulator map is written only when allocated; " +
-			"C08-R5 constant-position string indexing is reached only where the string is known non-empty. C08-R9 an error handed to a wrapping constructor whose Error() calls the wrapped error's Error() is known to be non-nil at the call; C08-R10 no loop has a stutter path and no trimming loop can leave its text unchanged; every loop is listed with its termination argument.",
+			"C08-R5 constant-position string indexing is reached only where the string is known non-empty. C08-R9 an error handed to a wrapping constructor whose Error() calls the wrapped error's Error() is known to be non-nil at the call; C08-R10 no loop has a stutter path and no trimming loop can leave its text unchanged; every loop is listed with its termination argument. C08-R11 the nil that a getter of the tree answers for \"there is none\" (TreeNode.FirstChild) is never dereferenced: every use is on a path that settled that there is one (helpers judged in the context of their callers). C08-R12 the position Elements.Index answers is used as an index only where its second answer was tested true (for a miss it is 0, out of range on an empty list). C08-R13 an integer is divided by a computed value only where a test against a literal has excluded 0.",
 		NotDecided: "index/slice bounds and nil dereferences in general, stack exhaustion under an absurd --maxdepth, termination of third-party code, a reader that never ends",
 		Run: func(c *core.Ctx) {
 			analyseParserLoop(c, map[string]bool{"C08-R1": true})
@@ -874,7 +977,11 @@ func init() {
 			ruleAborts(c, "C08-R3")
 			ruleNilMapWrite(c, "C08-R4")
 			ruleStringIndex(c, "C08-R5")
+			ruleConvertedIndex(c, "C08-R5")
 			ruleFileReaders(c, "C08-R6")
+			ruleNilFromGetter(c, "C08-R11")
+			ruleIndexFound(c, "C08-R12")
+			ruleIntegerDivision(c, "C08-R13")
 			ruleUncheckedLookup(c, "C08-R7")
 			ruleNilFile(c, "C08-R8")
 			ruleWrappedErrorsSet(c, "C08-R9")
@@ -882,6 +989,8 @@ func init() {
 		},
 		Canary: func(c *core.Ctx) {
 			ruleLoopProgress(c, "C08-R10")
+			ruleNilFromGetter(c, "C08-R11")
+			ruleIntegerDivision(c, "C08-R13")
 		},
 	})
 }
@@ -967,7 +1076,48 @@ func ruleFileReaders(c *core.Ctx, rule string) {
 		}
 		s.SetData("stored", "")
 	}
-	x.Run(x.NewState(fn, nil, nil))
+	st := x.NewState(fn, nil, nil)
+	if len(fn.FreeVars) > 0 {
+		// a closure over variables of the constructor (the opener it was given): run the constructor first and start
+		// the closure with what it captured there
+		x0 := newExec(c)
+		for _, tm := range x0.Run(x0.NewState(ctor, nil, nil)) {
+			var cl *absint.Closure
+			var find func(v absint.Value, depth int)
+			find = func(v absint.Value, depth int) {
+				if depth > 4 || cl != nil {
+					return
+				}
+				switch t := v.(type) {
+				case *absint.Closure:
+					if t.Fn == fn {
+						cl = t
+					}
+				case *absint.Struct:
+					for _, f := range t.Fields {
+						find(f, depth+1)
+					}
+				}
+			}
+			for _, r := range tm.Ret {
+				find(r, 0)
+			}
+			for _, hv := range tm.State.Heap {
+				find(hv, 0)
+			}
+			if cl != nil && len(x0.Problems) == 0 && !x0.Exhausted {
+				st = x.NewState(fn, nil, cl.Binds)
+				for k, v := range tm.State.Heap {
+					st.Heap[k] = v
+				}
+				for k, v := range tm.State.PC {
+					st.PC[k] = v
+				}
+				break
+			}
+		}
+	}
+	x.Run(st)
 	if !account(c, x, rule, fn) {
 		return
 	}
@@ -1169,7 +1319,7 @@ func ruleStringSlices(c *core.Ctx, rule string, fn *ssa.Function) {
 				if lenAtLeast(x, s, xv, st.need) {
 					okAt[sl] = true
 				} else {
-					badAt[sl] = x.Valuation(s)
+					badAt[sl] = nonEmptyText(x.Valuation(s))
 				}
 			}
 		}
@@ -1315,4 +1465,91 @@ func ruleNilFile(c *core.Ctx, rule string) {
 	if n == 0 {
 		c.Note(rule + ": no function opens a file")
 	}
+}
+
+// panicOnConstTemplate: the panic's operand is the error answered by a call of a function of the tree whose only
+// source of errors is (*text/template.Template).Parse of a text it is handed, and the texts handed over at this call
+// are compile-time constants that parse. The count of texts is returned.
+func panicOnConstTemplate(p *core.Program, pn *ssa.Panic) (int, bool) {
+	v := pn.X
+	if mi, ok := v.(*ssa.MakeInterface); ok {
+		v = mi.X
+	}
+	if ci, ok := v.(*ssa.ChangeInterface); ok {
+		v = ci.X
+	}
+	ext, ok := v.(*ssa.Extract)
+	if !ok || !isErrorType(ext.Type()) {
+		return 0, false
+	}
+	call, ok := ext.Tuple.(*ssa.Call)
+	if !ok {
+		return 0, false
+	}
+	f := core.Callee(&call.Call)
+	if f == nil || !p.InScope(f) || len(f.Blocks) == 0 {
+		return 0, false
+	}
+	// every error f returns is nil or the error of one Parse call on a parameter of f
+	var parse *ssa.Call
+	for _, b := range f.Blocks {
+		ret, ok := b.Instrs[len(b.Instrs)-1].(*ssa.Return)
+		if !ok || len(ret.Results) == 0 {
+			continue
+		}
+		ev := ret.Results[len(ret.Results)-1]
+		if cst, isC := ev.(*ssa.Const); isC && cst.IsNil() {
+			continue
+		}
+		ex2, ok := ev.(*ssa.Extract)
+		if !ok {
+			return 0, false
+		}
+		pc, ok := ex2.Tuple.(*ssa.Call)
+		if !ok {
+			return 0, false
+		}
+		cal := core.Callee(&pc.Call)
+		if cal == nil || cal.String() != "(*text/template.Template).Parse" || len(pc.Call.Args) != 2 || (parse != nil && parse != pc) {
+			return 0, false
+		}
+		parse = pc
+	}
+	if parse == nil {
+		return 0, false
+	}
+	// no other call in f answers an error that f could pass on under another name (kept simple: f has no other error-valued calls)
+	for _, b := range f.Blocks {
+		for _, in := range b.Instrs {
+			if c2, ok := in.(*ssa.Call); ok && c2 != parse {
+				if res := c2.Call.Signature().Results(); res.Len() > 0 && isErrorType(res.At(res.Len()-1).Type()) {
+					return 0, false
+				}
+			}
+		}
+	}
+	prm, ok := parse.Call.Args[1].(*ssa.Parameter)
+	if !ok {
+		return 0, false
+	}
+	idx := -1
+	for i, q := range f.Params {
+		if q == prm {
+			idx = i
+		}
+	}
+	if idx < 0 || idx >= len(call.Call.Args) {
+		return 0, false
+	}
+	constStringsProg = p
+	texts, ok := constStrings(call.Call.Args[idx], 0)
+	if !ok || len(texts) == 0 {
+		return 0, false
+	}
+	for _, t := range texts {
+		if _, err := template.New("t").Funcs(stubFuncs()).Parse(t); err != nil {
+			return 0, false
+		}
+	}
+	return len(texts), true
 }
